@@ -186,6 +186,45 @@ def format_preserved(F, S):
     return out
 
 
+def index_refusals_exact(F, S):
+    """Any refusal the CLM reader applies to an index entry's extent refuses only extents that leave the archive: an entry
+    may start exactly at the end of the file (an empty last track) - `dataOffset <= size` and `dataLength <= size - dataOffset`
+    are the in-bounds conditions, so a refusal must be `dataOffset > size` (strict) or `dataLength > size - dataOffset`."""
+    from ..through import closure
+    from ..prove import term_cond_facts
+    from ..rules_sib import enclosing_if_cond
+    out = []
+    rh = F.fn(CLM + "::ReadHeader", nparams=0)
+    n = 0
+    for f in closure(F, rh):
+        for th in [nd for nd in f.nodes if nd["k"] == "CXXThrowExpr"]:
+            cid, in_then = enclosing_if_cond(f, th["id"])
+            if cid is None:
+                continue
+            ct = f.term(cid)
+            if "dataOffset" not in repr(ct) and "dataLength" not in repr(ct):
+                continue
+            n += 1
+            # conditions under which the entry is ACCEPTED (the refusal's negation), disjuncts of the refusal handled one by one
+            def disj(t):
+                if t[0] == "op" and t[1] == "||":
+                    return disj(t[2]) + disj(t[3])
+                return [t]
+            for part in (disj(ct) if in_then else [ct]):
+                acc = term_cond_facts(part, not in_then)
+                for a in acc:
+                    inst = "%s::ReadHeader#entry-refusal:%s" % (CLM, fmt_term(part))
+                    req = "a refusal on an index entry's extent refuses only extents outside the archive (an empty track may start at the end of the file)"
+                    lhs, rhs = a[1], a[2]
+                    sizeish = lambda t: "m_ArchiveFileSize" in repr(t) or "Length" in repr(t)
+                    if a[0] == "<" and lhs[0] == "mem" and lhs[2] == "dataOffset" and sizeish(rhs) and "dataLength" not in repr(rhs):
+                        out.append(bad("R-GUARD", inst, f.loc(cid), f.qn, req,
+                                       "accepted only when %s: an entry that starts exactly at the end of the archive (offset == size, length 0) is refused" % ("%s < %s" % (fmt_term(lhs), fmt_term(rhs)))))
+                    elif a[0] in ("<", "<="):
+                        out.append(ok("R-GUARD", inst, f.loc(cid), f.qn, req, "accepts %s %s %s" % (fmt_term(lhs), a[0], fmt_term(rhs))))
+    return out, n
+
+
 def check(F, run, tier):
     S = Summaries(F)
     run.declined = DECLINED
@@ -199,6 +238,8 @@ def check(F, run, tier):
         "by the checked comparator first), R-INIT (WaveHeader::Create assigns every field; index zero-filled), and termination "
         "of the chunk walk.")
     obs, n = seq_obligations(F, "clm", min_sites=4, reader_prefix=True)
+    o_, _n = index_refusals_exact(F, S)
+    run.add(o_)
     run.add(obs)
     obs, n = seq_obligations(F, "wav", with_reader=False, min_sites=2)
     run.add(obs)
